@@ -107,15 +107,20 @@ func vxEnc(l *litestream.Lease) []byte {
 // vxInstant returns base + 5s - age - 0.5s for age in 0..9: instants on both
 // sides of "now", never equal to a whole-second clock reading.
 func vxInstant(base time.Time, name string) (time.Time, uint64) {
+	// TTL is a per-instance setting: another instance's lease may run far longer
+	// than this client's own TTL
+	if vx.Fault(name + "Far") {
+		return vx.TimeAgo(base.Add(time.Hour), 0), 0
+	}
 	age := vx.Range(name, 0, 9)
 	return vx.TimeAgo(base.Add(5*time.Second), age), age
 }
 
 type vxWorld struct {
-	st   *vxStore
-	base time.Time
-	w    *litestream.Lease // the witness client's lease
-	j    *litestream.Lease // the lease client j believes it holds (renew/release); nil for acquire
+	st     *vxStore
+	base   time.Time
+	w      *litestream.Lease // the witness client's lease
+	j      *litestream.Lease // the lease client j believes it holds (renew/release); nil for acquire
 	nOther int
 }
 
